@@ -156,9 +156,14 @@ def gen_polydata(rng):
     """lines + polygons of one corner count (triangles or quads) — what .vtp stores as Lines / Polys"""
     G = gen_global(rng, kinds=("quadtri",))
     quads = rng.random() < 0.5
+    mixed = rng.random() < 0.35          # triangles and quadrilaterals together in <Polys> (ragged connectivity)
     cells = []
     for t, cs in G["cells"]:
-        if t == 9 and quads:
+        if mixed:
+            cells.append([7, cs])
+            if rng.random() < 0.3:
+                cells.append([4, [cs[0], cs[1]]])
+        elif t == 9 and quads:
             cells.append([7, cs])
         elif t == 9:
             cells += [[7, [cs[0], cs[1], cs[2]]], [7, [cs[0], cs[2], cs[3]]]]
@@ -184,7 +189,7 @@ def gen_polydata(rng):
     G["cells"] = [[t, [ren[c] for c in cs]] for t, cs in cells]
     G["pf"] = [[n, vt, nc, sc, [rows[g] for g in used]] for n, vt, nc, sc, rows in G["pf"]]
     G["cf"] = [_field(rng, "c", len(cells))]
-    G["kind"] = "polydata"
+    G["kind"] = "polydata-mixed" if mixed else "polydata"
     return G
 
 
@@ -306,7 +311,7 @@ def extract(fields, G):
     dom = fields.domain
     res = {"points": _scaled(dom.points, SCALE), "cells": [], "pf": {}, "cf": {}}
     for ct in dom.cell_types:
-        res["cells"].append([ct.id, np.asarray(dom.connectivity(ct)).astype(np.int64).tolist()])
+        res["cells"].append([ct.id, [[int(x) for x in row] for row in dom.connectivity(ct)]])       # rows may be ragged (polygons)
     for f in fields.point_fields:
         res["pf"][f.name] = {"dtype": np.asarray(f.values).dtype.name, "rows": _scaled(f.values, psc.get(f.name, 1))}
     for f, ct in fields.cell_fields_types:
@@ -1228,6 +1233,14 @@ def corpus_stream(ctx):
 
 
 def run(ctx):
+    try:
+        return _run(ctx)
+    except BaseException:
+        shutil.rmtree(ctx.workdir, ignore_errors=True)      # never leave scratch files behind, even when the harness itself fails
+        raise
+
+
+def _run(ctx):
     ctx.prove()
     quick = ctx.tier == "quick"
     corpus_stream(ctx)
